@@ -23,3 +23,28 @@ NOT_COVERED["C05"] = ["producer side of ExchangeObjectContainer.get_open (genera
 NOT_COVERED["C06"] = ["reservation formula is proved for the four order types and the two fee schemes of the repo (user subclasses: only non-negativity)"]
 NOT_COVERED["C07"] = []
 NOT_COVERED["C09"] = []
+
+COMMON_DISP = [
+    "asyncio contract (assumed): asyncio.wait returns (done, pending) partitioning the set it was given, done tasks are finished, without timeout done is non-empty and equals the set for ALL_COMPLETED; gather awaits all children, raises the first exception unless return_exceptions; gather starts children in argument order; Task.done() is monotone; cancel() only requests cancellation",
+    "heapq contract (assumed): heappush/heappop keep the heap, heappop and index 0 give an element with minimal key; the heap list is abstracted to the set of its elements (index -1 is an arbitrary element)",
+    "interference (rely) at suspension points: user code and other tasks use the dispatcher's public API only (schedule, stop, push events to sources); they never write the private clock, the subscription tables or pop the scheduler queue; stop is sticky",
+    "a coroutine's precondition is demanded where the coroutine object is created (handed to the pool / gather); its stability until the coroutine starts is argued in DESIGN, not machine-checked",
+    "dt.utc_now() / time.time() are monotone ghost clocks",
+    "handlers, jobs and idle handlers are opaque coroutines that may suspend, raise any Exception or be cancelled",
+]
+for p in ("C03", "C12", "C13", "C14", "C15"):
+    ASSUMPTIONS.setdefault(p, []).extend(COMMON_DISP)
+    LEVELS.setdefault(p, "proof")
+NOT_COVERED["C12"] = ["'all events of all sources are delivered' is partial correctness (termination of a run is not proved)",
+                      "global non-decreasing order is carried by the clock: events of a pass have when <= clock and the clock never moves backwards; `when == clock` for every delivered event needs the sources' own monotonicity (hypothesis of the property) and is not derived",
+                      "exactly-once is proved slot-wise for the multiplexer (no_loss / consumed); the hand-over `_event_handlers.get(source)` -> EventDispatch.handlers is by inspection of one expression",
+                      "tie order between sources (earliest subscribed first) is not expressed: dict iteration order is not modelled"]
+NOT_COVERED["C13"] = ["exactly-once across a whole run is per call: each call of _dispatch_scheduled drains every job due at its bound, pop removes exactly one minimal job; the final drain bound is >= every queued job (peek_last = max)",
+                      "'in non-decreasing scheduled-time order' holds per pop (a minimum of the queue at that time); jobs scheduled into the past by handlers run late by design",
+                      "a heap list manipulated other than through heapq (append, sort, ...) is outside the set abstraction: reported as undecided, not as a violation"]
+NOT_COVERED["C14"] = ["EventDispatcher.run (signal handlers, two async-with task groups, asynccontextmanager): phase order and finalize-exactly-once are not under contract",
+                      "TaskGroup.__aexit__", "RealtimeDispatcher._on_idle body (trusted contract; its precondition `pool idle` is proved at the call site)",
+                      "bounded concurrency is the TaskPool invariant |_tasks| <= _max_size under both interference models; that every user coroutine goes through the pool is by inspection of the call sites"]
+NOT_COVERED["C15"] = ["'every event and job is eventually dispatched once due' is liveness (fairness of the asyncio loop, termination of handlers): not covered",
+                      "RealtimeDispatcher._on_idle body (trusted)"]
+LEVELS["C14"] = "other"
